@@ -255,10 +255,9 @@ def removeFiltered (pol : List Rule) (fieldIndex : Nat) (vals : List String) : E
   | .error e => .error e
   | .ok (keep, gone) => .ok (keep, !gone.isEmpty)
 
-/-- `remove_filtered_policy_returns_effects`: no field values → nothing is removed; else the removed rules -/
+/-- `remove_filtered_policy_returns_effects`: the removed rules (no field values → every rule, as for the reads) -/
 def removeFilteredEffects (pol : List Rule) (fieldIndex : Nat) (vals : List String) : Except PErr (List Rule × List Rule) :=
-  if vals.isEmpty then .ok (pol, [])
-  else match splitFiltered fieldIndex vals pol with
+  match splitFiltered fieldIndex vals pol with
     | .error e => .error e
     | .ok (keep, gone) => .ok (keep, gone)
 
@@ -287,6 +286,7 @@ def updatePolicy (pol : List Rule) (old new : Rule) : List Rule × Bool :=
 /-- `update_policies` -/
 def updatePolicies (pol : List Rule) (olds news : List Rule) : List Rule × Bool :=
   if olds.length != news.length then (pol, false)
+  else if olds.any (fun o => olds.count o > 1) then (pol, false)
   else if olds.any (fun o => !pol.contains o) then (pol, false)
   else
     let idxs := olds.map pol.idxOf
